@@ -158,11 +158,30 @@ def reconnect_pipeline(m, w, k=1, unrep=4, lag=None, leader=N1):
     return w
 
 
-def forwarded(m, w, k=0, leader=N1, via=N2):
-    """A follower has forwarded a command; nothing delivered yet."""
+def forwarded(m, w, k=0, leader=N1, via=N2, meth=None, count=1):
+    """A follower has forwarded a command (`count` commands; `meth`: a method other than put, e.g. a
+    raising one); nothing delivered yet."""
     w = steady(m, w, k, leader)
-    w = m.do(w, ('S', via, 'free'))
+    for _ in range(count):
+        w = m.do(w, ('SM', via, meth, 'free') if meth else ('S', via, 'free'))
     w = m.do(w, ('Z', via))
+    return w
+
+
+def forwarded_acked(m, w, leader=N1, via=N2, new=N3, meth=None, count=2):
+    """A follower forwarded `count` commands; the leader appended them and told the follower their
+    positions, but was cut off before it replicated any of them. `new` was elected (vote of the follower):
+    its no-op sits on the first of those positions; the follower's callbacks are still waiting there."""
+    w = forwarded(m, w, 0, leader, via, meth, count)
+    for _ in range(count):
+        w = m.do(w, ('D', via, leader))
+    w = m.do(w, ('Z', leader))
+    while w.queue(leader, via):
+        w = m.do(w, ('D', leader, via))
+    w = m.isolate(w, leader)
+    w = elect(m, w, new, only=[new, via])
+    if m.summary(w, via).leader != new:
+        m.seed_shape_ok = False
     return w
 
 
@@ -644,7 +663,7 @@ def candidates(m, w, who=(N1, N2)):
     return w
 
 
-SEEDS = dict(m_readd_lateack=m_readd_lateack, vote_requested=vote_requested, forwarded_stale=forwarded_stale, reelected_cache3=reelected_cache3, deposed_obs=deposed_obs, voted=voted, stalled_old_code=stalled_old_code, reelected5=reelected5, stale_reset5=stale_reset5, stale_vote5=stale_vote5, stale_snapshot=stale_snapshot, ahead_full=ahead_full, fig8_full=fig8_full, candidates=candidates, battery_lagsnap=battery_lagsnap, ahead=ahead, lagging_newleader=lagging_newleader, m_deposed=m_deposed, split=split, version_snap=version_snap, fresh=fresh, steady=steady, lagging=lagging, lagging_snap=lagging_snap, deposed=deposed,
+SEEDS = dict(forwarded_acked=forwarded_acked, m_readd_lateack=m_readd_lateack, vote_requested=vote_requested, forwarded_stale=forwarded_stale, reelected_cache3=reelected_cache3, deposed_obs=deposed_obs, voted=voted, stalled_old_code=stalled_old_code, reelected5=reelected5, stale_reset5=stale_reset5, stale_vote5=stale_vote5, stale_snapshot=stale_snapshot, ahead_full=ahead_full, fig8_full=fig8_full, candidates=candidates, battery_lagsnap=battery_lagsnap, ahead=ahead, lagging_newleader=lagging_newleader, m_deposed=m_deposed, split=split, version_snap=version_snap, fresh=fresh, steady=steady, lagging=lagging, lagging_snap=lagging_snap, deposed=deposed,
              deposed_snap=deposed_snap, deposed_twice=deposed_twice, pending=pending, reconnect_pipeline=reconnect_pipeline,
              forwarded=forwarded, fig8=fig8)
 
